@@ -100,6 +100,13 @@ inductive Stmt where
 
 /-! ## variable leaves of an expression, in the order of `tracker_visit_expr` -/
 
+/-- `Call::identify_call() == CallType::Block(_)` (feature `multi_template`): `self.name(..)`
+renders a block (`Instruction::CallBlock`) and looks nothing up; `tracker_visit_call` skips
+the callee in that case. -/
+def isSelfBlockCall : Expr → Bool
+  | .getattr (.var id) _ => id == "self"
+  | _ => false
+
 mutual
 def vars : Expr → List String
   | .var id => [id]
@@ -113,7 +120,7 @@ def vars : Expr → List String
   | .test _ e args => vars e ++ varsArgs args
   | .getattr e _ => vars e
   | .getitem e s => vars e ++ vars s
-  | .call e args => vars e ++ varsArgs args
+  | .call e args => (if isSelfBlockCall e then [] else vars e) ++ varsArgs args
   | .list items => varsList items
   | .tuple items => varsList items
   | .map kvs => varsList kvs
@@ -134,7 +141,8 @@ def varsArgs : List CallArg → List String
 end
 
 /-- `tracker_visit_call` on a `Call { expr, args }` -/
-def varsCall (callee : Expr) (cargs : List CallArg) : List String := vars callee ++ varsArgs cargs
+def varsCall (callee : Expr) (cargs : List CallArg) : List String :=
+  (if isSelfBlockCall callee then [] else vars callee) ++ varsArgs cargs
 
 /-! ## assignment targets
 
